@@ -683,6 +683,12 @@ func (g *contGen) arrOp(mode string, fix bool, phase int) string {
 				g.aborted = true
 			case 2, 3, 4:
 				b = g.n
+			case 5:
+				if r.Chance(40) { // the empty range beyond the end: from == upTo > length
+					a = g.n + 1 + r.Intn(3)
+					b = a
+					g.aborted = true
+				}
 			}
 			kind := "sl"
 			if mode == "M" && r.Chance(25) {
